@@ -148,7 +148,10 @@ func (TrafficOrderMonitor) OnTransition(x *Ctx, t *Transition) {
 		}
 		bi, bs, _, _ := StepCursor(before)
 		ai, as, _, _ := StepCursor(after)
-		if bi != ai || bs != string(rolloutsv1beta1.CanaryStepStateTrafficRouting) || stateOrder[as] <= stateOrder[bs] {
+		// "reported as routed": the step leaves its routing part forwards - out of StepTrafficRouting, or past it
+		// without ever entering it
+		tr := stateOrder[string(rolloutsv1beta1.CanaryStepStateTrafficRouting)]
+		if bi != ai || bs == "" || as == "" || stateOrder[bs] > tr || stateOrder[as] <= tr {
 			continue
 		}
 		// a status write that records a new plan hash is the plan-change handler recomputing the cursor (it may mark
@@ -165,10 +168,16 @@ func (TrafficOrderMonitor) OnTransition(x *Ctx, t *Transition) {
 		if !has && len(steps[ai-1].Matches) == 0 {
 			continue
 		}
+		// a partition-style step that replaces every pod has no stable pod left to share traffic with: the code
+		// un-pins the stable Service and withdraws the routes instead (ingress-nginx 9635 bypass); not a routed report
+		if v := ViewWorkload(x.W, sc); v != nil && rolloutsv1beta1.IsRealPartition(after) && steps[ai-1].Replicas != nil && scaled(steps[ai-1].Replicas, v.Replicas) >= v.Replicas {
+			x.Count("C03 full-replacement partition steps (routes withdrawn instead, not judged)")
+			continue
+		}
 		x.Count("C03 routed reports judged")
 		ts := ReadTraffic(x.W, sc)
 		if has && len(steps[ai-1].Matches) == 0 && ts.CanaryShare != want {
-			x.Violate("C03/exact/share-differs-from-step", fmt.Sprintf("step %d reported as routed (StepTrafficRouting -> %s) but the gateway sends %d%% to the canary, the step configures %d%%", ai, as, ts.CanaryShare, want))
+			x.Violate("C03/exact/share-differs-from-step", fmt.Sprintf("step %d reported as routed (%s -> %s) but the gateway sends %d%% to the canary, the step configures %d%%", ai, bs, as, ts.CanaryShare, want))
 		}
 		if len(steps[ai-1].Matches) > 0 && len(ts.CanaryMatches) == 0 {
 			x.Violate("C03/exact/matches-missing", fmt.Sprintf("step %d reported as routed but no match rule targets the canary Service", ai))
@@ -246,6 +255,17 @@ func (VoidMonitor) OnWrite(x *Ctx, w *Write) {
 		}
 		if ts.StablePinned != "" && ts.StablePinned == shortHash(stable) && ts.CanaryShare < 100 && !requested(x.Mon, "rollback", "release3", "exit") {
 			x.Violate("C04/order/last-stable-pod-before-unpin", fmt.Sprintf("BatchRelease controller allowed every pod to be updated (%s) while the stable Service is still pinned to the stable revision %q and receives %d%% of the traffic", v.KnobText, stable, 100-ts.CanaryShare))
+		}
+	}
+	// blue-green: the old-revision pods go when the BatchRelease controller hands the workload back to its native
+	// controller (control annotation removed, strategy restored); the stable Service must not be pinned to the old
+	// revision any more at that moment if it still receives traffic
+	if w.Actor == "B" && w.Verb == "update" && !w.Status && w.Key.GVR.Resource == workloadResource(sc) && w.Key.Name == AppName && sc.Style == "bluegreen" &&
+		controlledOf(w.Before) && !controlledOf(w.After) {
+		x.Count("C04 blue-green hand-backs judged")
+		if ts.StablePinned != "" && ts.StablePinned != shortHash(v.UpdateRev) && ts.CanaryShare < 100 && v.ByRevision[ts.StablePinned] > 0 {
+			x.Violate("C04/order/workload-handed-back-before-unpin/"+sc.Kind+"-"+sc.Style, fmt.Sprintf("the BatchRelease controller handed the workload back to its native controller (which now replaces the %d pods of revision %q) while the stable Service is still pinned to that revision and receives %d%% of the traffic",
+				v.ByRevision[ts.StablePinned], ts.StablePinned, 100-ts.CanaryShare))
 		}
 	}
 }
